@@ -2,6 +2,7 @@
 Tie 1 (regenerated facts), generator area. `GenGen` is rewritten by factgen on every run.
 -/
 import ThriftVerif.Facts.GenGen
+import ThriftVerif.Gen.Naming
 
 namespace ThriftVerif.Facts.ExpectGen
 open ThriftVerif.Facts
@@ -21,5 +22,8 @@ def commonInitialisms : List String :=
    "QPS", "RAM", "RHS", "RPC", "SLA", "SMTP", "SQL", "SSH", "TCP", "TLS", "TTL", "UDP", "UI", "UID", "URI",
    "URL", "UTF8", "UUID", "VM", "XML", "XSRF", "XSS"]
 theorem commonInitialisms_ok : GenGen.commonInitialisms = commonInitialisms := by decide
+
+/-- the naming model (M-Gen) uses exactly the generator's initialisms. -/
+theorem initialisms_model_ok : GenGen.commonInitialisms = ThriftVerif.Gen.commonInitialisms := by decide
 
 end ThriftVerif.Facts.ExpectGen
